@@ -62,6 +62,10 @@ def slotted(  # noqa: C901
     """
 
     def _slots_setstate(self, state):
+        # The default state is `(dict-or-None, slots)`, or the bare instance
+        # dict when no slot holds a value.
+        if not isinstance(state, tuple):
+            state = (state,)
         for param_dict in filter(None, state):
             for slot, value in param_dict.items():
                 object.__setattr__(self, slot, value)
